@@ -1,5 +1,6 @@
 #include "common.h"
 void scen_c01(mt_case *);
+void scen_c03(mt_case *);
 void scen_c04(mt_case *);
 void scen_c05(mt_case *);
 void scen_c06(mt_case *);
@@ -11,6 +12,7 @@ void scen_c13(mt_case *);
 void scen_c14(mt_case *);
 const mt_scenario mt_scenarios[] = {
   { 1, "C01 create/join", scen_c01 },
+  { 3, "C03 registers and stack", scen_c03 },
   { 4, "C04 mutex", scen_c04 },
   { 5, "C05 condition variables", scen_c05 },
   { 6, "C06 barrier", scen_c06 },
